@@ -612,6 +612,23 @@ Section IterP.
   Qed.
 End IterP.
 
+(* ---------- logFile.iterate(readOnly, offset, fn) on a file image ---------- *)
+Lemma drop_N_app pre : forall buf, drop_N (pre ++ buf) (N.of_nat (length pre)) = buf.
+Proof.
+  induction pre as [|x pre IH]; intros buf.
+  - cbn [app length]. destruct buf; reflexivity.
+  - cbn [app length drop_N].
+    assert (E: (N.of_nat (S (length pre)) =? 0) = false) by (apply N.eqb_neq; lia). rewrite E.
+    replace (N.of_nat (S (length pre)) - 1) with (N.of_nat (length pre)) by lia. apply IH.
+Qed.
+
+(* offset 0 = start after the 20-byte file header; any other offset = start there *)
+Lemma iterate_file_spec encrypted xs base_iv pre buf offset :
+  N.of_nat (length pre) = (if offset =? 0 then c_vlogHeaderSize else offset) ->
+  iterate_file encrypted xs base_iv (pre ++ buf) offset
+  = iterate encrypted xs base_iv buf (N.of_nat (length pre)).
+Proof. intros H. unfold iterate_file. rewrite <- H. now rewrite drop_N_app. Qed.
+
 (* ---------- concrete material for the Examples in props/C16.v, props/C09.v ---------- *)
 Definition ex_plain : entry := mkEntry (key_with_ts [107; 49] 5) [118] 0 7 0.
 Definition ex_t1 : entry := mkEntry (key_with_ts [97] 9) [1; 2] 64 0 0.
@@ -636,3 +653,29 @@ Lemma zero_ts_witness :
   txn_bit ex_z0 = true /\ parse_ts (e_key ex_z0) = 0 /\ parse_uint_dec (e_value ex_zm) = Some 7 /\
   fst (iterate false xs_id [] buf 20) = dels [ex_z0; ex_z7] 20.
 Proof. vm_compute. repeat split; reflexivity. Qed.
+
+(* ---------- zero-filled torn images: rejected unless accepted with a matching checksum ---------- *)
+Section TornP.
+  Variable encrypted : bool.
+  Variable xs : bytes -> bytes -> bytes.
+  Variable base_iv : bytes.
+  Hypothesis xs_len : forall iv d, length (xs iv d) = length d.
+
+  (* the image is read back as a record (non-empty key, matching CRC-32C) *)
+  Definition crc_accepts (img : bytes) (off : N) : bool :=
+    match safe_read encrypted xs base_iv img off with
+    | RdOk e _ _ => match e_key e with [] => false | _ => true end
+    | _ => false
+    end.
+
+  Lemma torn_rejected_unless_accepted e off j n : wf_entry e ->
+    let img := firstn j (encode_entry encrypted xs base_iv e off) ++ repeat 0 n in
+    crc_accepts img off = false -> tail_rejected encrypted xs base_iv img off = true.
+  Proof using xs_len.
+    intros W img. unfold crc_accepts, tail_rejected.
+    pose proof (safe_read_torn_no_error encrypted xs base_iv xs_len e off j n W) as [NE NP].
+    fold img in NE, NP.
+    destruct (safe_read encrypted xs base_iv img off) as [e' hl r| | | | |]; try reflexivity; try congruence.
+    destruct (e_key e'); [reflexivity|discriminate].
+  Qed.
+End TornP.
